@@ -301,4 +301,299 @@ theorem walk_found {m : SMap} {cant : List Id} :
                 fun _ _ _ => hsub cur (List.mem_cons_self),
                 fun x hx => hsub x (List.mem_cons_of_mem _ hx)⟩
 
+/-! ### `resolvePath` -/
+
+theorem resolve1_some {nc : Bool} {d : Desc} {par : Resolved} {r : Res}
+    (h : resolve1 nc d (some par) = .ok r) :
+    r.eff = effOf (some par) d ∧ mkFmt nc r.eff = .ok r.fmt := by
+  unfold resolve1 at h
+  split at h
+  · cases h
+  · cases hf : mkFmt nc (effOf (some par) d) with
+    | error x => simp [hf] at h
+    | ok f =>
+      simp [hf] at h
+      subst h
+      exact ⟨rfl, hf⟩
+
+theorem resolve1_none {nc : Bool} {d : Desc} {r : Res} (h : resolve1 nc d none = .ok r) :
+    d.parent = none ∧ r.eff = effOf none d ∧ mkFmt nc r.eff = .ok r.fmt := by
+  unfold resolve1 at h
+  split at h
+  · cases h
+  · rename_i hp
+    cases hf : mkFmt nc (effOf none d) with
+    | error x => simp [hf] at h
+    | ok f =>
+      simp [hf] at h
+      subst h
+      refine ⟨?_, rfl, hf⟩
+      cases hd : d.parent with
+      | none => rfl
+      | some p => simp [hd] at hp
+
+theorem setRes_inv {nc : Bool} {m : SMap} {x : Id} {e : Entry} {r : Res}
+    (hs : Sound nc m) (hr : Roots m) (hl : lookup m x = some e) (hn : e.res = none)
+    (hres : Resolves (descOf m) x r.eff) (hf : mkFmt nc r.eff = .ok r.fmt) :
+    Sound nc (setRes m x r) ∧ Roots (setRes m x r) ∧ Ext m (setRes m x r) := by
+  refine ⟨?_, ?_, descOf_setRes m x r, ?_⟩
+  · intro id e' r' hl' hr'
+    rw [descOf_setRes]
+    by_cases hid : id = x
+    · subst hid
+      rw [lookup_setRes_same r hl] at hl'
+      cases hl'
+      simp at hr'
+      subst hr'
+      exact ⟨hres, hf⟩
+    · rw [lookup_setRes_other r hid] at hl'
+      exact hs id e' r' hl' hr'
+  · intro id e' hl' hp'
+    by_cases hid : id = x
+    · subst hid
+      rw [lookup_setRes_same r hl] at hl'
+      cases hl'
+      simp
+    · rw [lookup_setRes_other r hid] at hl'
+      exact hr id e' hl' hp'
+  · intro id e' hl' hr'
+    by_cases hid : id = x
+    · subst hid
+      rw [hl] at hl'; cases hl'
+      exact absurd hn hr'
+    · rw [lookup_setRes_other r hid]; exact hl'
+
+theorem chainTo_congr {m m1 : SMap} : ∀ (l : List Id) (t : Id),
+    (∀ y ∈ l, lookup m1 y = lookup m y) → ChainTo m t l → ChainTo m1 t l := by
+  intro l
+  induction l with
+  | nil => intro _ _ _; trivial
+  | cons x rest ih =>
+    intro t hsame hc
+    obtain ⟨⟨e, hl, hn, hp⟩, hrest⟩ := hc
+    refine ⟨⟨e, ?_, hn, hp⟩, ih x (fun y hy => hsame y (List.mem_cons_of_mem _ hy)) hrest⟩
+    rw [hsame x List.mem_cons_self]; exact hl
+
+theorem resolvePath_spec {nc : Bool} : ∀ (rpath : List Id) (m : SMap) (top : Id) (par : Resolved) (m' : SMap),
+    Sound nc m → Roots m → ChainTo m top rpath → rpath.Nodup → Resolves (descOf m) top par →
+    resolvePath nc m par rpath = .ok m' →
+    Sound nc m' ∧ Roots m' ∧ Ext m m' ∧ ∀ x ∈ rpath, ∃ e, lookup m' x = some e ∧ e.res ≠ none := by
+  intro rpath
+  induction rpath with
+  | nil =>
+    intro m top par m' hs hr _ _ _ h
+    simp [resolvePath] at h
+    subst h
+    exact ⟨hs, hr, Ext.refl m, fun x hx => by cases hx⟩
+  | cons x rest ih =>
+    intro m top par m' hs hr hc hnd hpar h
+    obtain ⟨⟨e, hl, hn, hp⟩, hrest⟩ := hc
+    obtain ⟨hxrest, hndrest⟩ := List.nodup_cons.mp hnd
+    unfold resolvePath at h
+    simp only [hl, hn] at h
+    cases h1 : resolve1 nc e.desc (some par) with
+    | error err => simp [h1] at h
+    | ok r =>
+      simp [h1] at h
+      obtain ⟨heff, hfmt⟩ := resolve1_some h1
+      have hd : descOf m x = some e.desc := by simp [descOf, hl]
+      have hres : Resolves (descOf m) x r.eff := by rw [heff]; exact .step hd hp hpar
+      obtain ⟨hs1, hr1, he1⟩ := setRes_inv hs hr hl hn hres hfmt
+      have hsame : ∀ y ∈ rest, lookup (setRes m x r) y = lookup m y := by
+        intro y hy
+        apply lookup_setRes_other
+        intro hyx; subst hyx; exact hxrest hy
+      have hc1 : ChainTo (setRes m x r) x rest := chainTo_congr rest x hsame hrest
+      have hres1 : Resolves (descOf (setRes m x r)) x r.eff := by rw [descOf_setRes]; exact hres
+      obtain ⟨hs', hr', he', hall⟩ := ih (setRes m x r) x r.eff m' hs1 hr1 hc1 hndrest hres1 h
+      refine ⟨hs', hr', he1.trans he', ?_⟩
+      intro y hy
+      rcases List.mem_cons.mp hy with rfl | hy
+      · refine ⟨{ e with res := some r }, ?_, by simp⟩
+        exact he'.2 _ _ (lookup_setRes_same r hl) (by simp)
+      · exact hall y hy
+
+/-! ### one item of a pass, a pass, the loop -/
+
+structure PInv (nc : Bool) (dm : Id → Option Desc) (s : PassSt) : Prop where
+  sound : Sound nc s.m
+  roots : Roots s.m
+  desc : descOf s.m = dm
+  cant : ∀ x ∈ s.cant, ¬ Resolvable dm x
+
+theorem passStep_spec {nc : Bool} {fuel : Nat} {dm : Id → Option Desc} {s s' : PassSt} {id : Id}
+    (hi : PInv nc dm s) (h : passStep nc fuel s id = .ok s') :
+    PInv nc dm s' ∧ Ext s.m s'.m ∧ Done dm s'.m id := by
+  unfold passStep at h
+  cases hl : lookup s.m id with
+  | none => simp [hl] at h
+  | some e =>
+    simp only [hl] at h
+    cases hres : e.res with
+    | some r =>
+      simp [hres] at h
+      subst h
+      exact ⟨hi, Ext.refl _, .inl ⟨e, hl, by simp [hres]⟩⟩
+    | none =>
+      simp only [hres] at h
+      cases hw : walk s.m s.cant fuel id [] with
+      | error err => simp [hw] at h
+      | ok w =>
+        cases w with
+        | stuck p =>
+          simp [hw] at h
+          subst h
+          have hcant : ∀ x ∈ s.cant, ¬ Resolvable (descOf s.m) x := by rw [hi.desc]; exact hi.cant
+          obtain ⟨hp, hid⟩ := walk_stuck (nc := nc) hi.roots hcant fuel id [] p (fun x hx => by cases hx) hw
+          rw [hi.desc] at hp hid
+          refine ⟨⟨hi.sound, hi.roots, hi.desc, ?_⟩, Ext.refl _, .inr hid⟩
+          intro x hx
+          rcases List.mem_append.mp hx with hx | hx
+          · exact hp x hx
+          · exact hi.cant x hx
+        | found par p =>
+          simp only [hw] at h
+          cases hrp : resolvePath nc s.m par p with
+          | error err => simp [hrp] at h
+          | ok m' =>
+            simp [hrp] at h
+            subst h
+            obtain ⟨anc, e2, r2, hc, hnd, hl2, hr2, hp2, hstart, _⟩ :=
+              walk_found fuel id [] p par trivial List.nodup_nil hw
+            have hanc : Resolves (descOf s.m) anc par := by
+              rw [← hp2]; exact (hi.sound anc e2 r2 hl2 hr2).1
+            obtain ⟨hs', hr', he', hall⟩ := resolvePath_spec p s.m anc par m' hi.sound hi.roots hc hnd hanc hrp
+            refine ⟨⟨hs', hr', by rw [he'.1]; exact hi.desc, hi.cant⟩, he', .inl ?_⟩
+            exact hall id (hstart e hl hres)
+
+theorem pass_spec {nc : Bool} {fuel : Nat} {dm : Id → Option Desc} :
+    ∀ (ids : List Id) (s s' : PassSt), PInv nc dm s → pass nc fuel s ids = .ok s' →
+      PInv nc dm s' ∧ Ext s.m s'.m ∧ ∀ id ∈ ids, Done dm s'.m id := by
+  intro ids
+  induction ids with
+  | nil =>
+    intro s s' hi h
+    simp [pass] at h
+    subst h
+    exact ⟨hi, Ext.refl _, fun id hid => by cases hid⟩
+  | cons id ids ih =>
+    intro s s' hi h
+    unfold pass at h
+    cases h1 : passStep nc fuel s id with
+    | error err => simp [h1] at h
+    | ok s1 =>
+      simp [h1] at h
+      obtain ⟨hi1, he1, hd1⟩ := passStep_spec hi h1
+      obtain ⟨hi', he', hall⟩ := ih s1 s' hi1 h
+      refine ⟨hi', he1.trans he', ?_⟩
+      intro x hx
+      rcases List.mem_cons.mp hx with rfl | hx
+      · exact hd1.ext he'
+      · exact hall x hx
+
+theorem loop_spec {nc : Bool} {wfuel : Nat} {ids : List Id} {dm : Id → Option Desc} :
+    ∀ (fuel : Nat) (m : SMap) (cant : List Id) (m' : SMap),
+      PInv nc dm ⟨m, cant, false⟩ → loop nc wfuel ids fuel m cant = .ok m' →
+      Sound nc m' ∧ Roots m' ∧ Ext m m' ∧ ∀ id ∈ ids, Done dm m' id := by
+  intro fuel
+  induction fuel with
+  | zero => intro m cant m' _ h; simp [loop] at h
+  | succ fuel ih =>
+    intro m cant m' hi h
+    unfold loop at h
+    cases hp : pass nc wfuel ⟨m, cant, false⟩ ids with
+    | error err => simp [hp] at h
+    | ok s =>
+      simp only [hp] at h
+      obtain ⟨hi', he', hall⟩ := pass_spec ids _ s hi hp
+      split at h
+      · have hi2 : PInv nc dm ⟨s.m, s.cant, false⟩ := ⟨hi'.sound, hi'.roots, hi'.desc, hi'.cant⟩
+        obtain ⟨hs2, hr2, he2, hall2⟩ := ih s.m s.cant m' hi2 h
+        exact ⟨hs2, hr2, Ext.trans he' he2, hall2⟩
+      · cases h
+        exact ⟨hi'.sound, hi'.roots, he', hall⟩
+
+/-! ### `resolveAll` -/
+
+theorem mem_insertSorted {x y : Id} {l : List Id} : y ∈ insertSorted x l ↔ y = x ∨ y ∈ l := by
+  induction l with
+  | nil => simp [insertSorted]
+  | cons z l ih =>
+    unfold insertSorted
+    split
+    · simp [ih]; constructor
+      · rintro (h | h | h)
+        · exact .inr (.inl h)
+        · exact .inl h
+        · exact .inr (.inr h)
+      · rintro (h | h | h)
+        · exact .inr (.inl h)
+        · exact .inl h
+        · exact .inr (.inr h)
+    · simp
+
+theorem mem_sortIds {y : Id} {l : List Id} : y ∈ sortIds l ↔ y ∈ l := by
+  induction l with
+  | nil => simp [sortIds]
+  | cons x l ih =>
+    have : sortIds (x :: l) = insertSorted x (sortIds l) := rfl
+    rw [this, mem_insertSorted, ih]; simp
+
+theorem mem_unresolvedIds {m : SMap} {id : Id} {e : Entry} (hl : lookup m id = some e) (hn : e.res = none) :
+    id ∈ unresolvedIds m := by
+  induction m with
+  | nil => simp [lookup] at hl
+  | cons ke m ih =>
+    obtain ⟨k, e'⟩ := ke
+    by_cases hk : k = id
+    · simp [lookup, hk] at hl
+      subst hl
+      simp [unresolvedIds, List.filter, hn, hk]
+    · simp [lookup, hk] at hl
+      have := ih hl
+      unfold unresolvedIds at this ⊢
+      simp only [List.filter]
+      split
+      · simp; exact .inr (by simpa using this)
+      · exact this
+
+theorem resolveAll_spec {nc : Bool} {m m' : SMap} (hs : Sound nc m) (hr : Roots m)
+    (h : resolveAll nc m = .ok m') :
+    Sound nc m' ∧ Roots m' ∧ Ext m m' ∧ Complete m' := by
+  unfold resolveAll at h
+  simp only at h
+  split at h
+  · rename_i hempty
+    cases h
+    refine ⟨hs, hr, Ext.refl _, ?_⟩
+    intro id r hres
+    obtain ⟨d, hd⟩ := hres.known
+    cases hl : lookup m id with
+    | none => simp [descOf, hl] at hd
+    | some e =>
+      cases hres' : e.res with
+      | some rr => exact ⟨e, rr, rfl, hres'⟩
+      | none =>
+        have := mem_sortIds.mpr (mem_unresolvedIds hl hres')
+        rw [hempty] at this
+        cases this
+  · have hi : PInv nc (descOf m) ⟨m, [], false⟩ := ⟨hs, hr, rfl, fun x hx => by cases hx⟩
+    obtain ⟨hs', hr', he', hall⟩ := loop_spec _ m [] m' hi h
+    refine ⟨hs', hr', he', ?_⟩
+    intro id r hres
+    rw [he'.1] at hres
+    obtain ⟨d, hd⟩ := hres.known
+    cases hl : lookup m id with
+    | none => simp [descOf, hl] at hd
+    | some e =>
+      cases hres' : e.res with
+      | some rr => exact ⟨e, rr, he'.2 id e hl (by simp [hres']), hres'⟩
+      | none =>
+        have hmem := mem_sortIds.mpr (mem_unresolvedIds hl hres')
+        rcases hall id hmem with ⟨e2, hl2, hr2⟩ | hnot
+        · cases hr2' : e2.res with
+          | none => exact absurd hr2' hr2
+          | some rr => exact ⟨e2, rr, hl2, hr2'⟩
+        · exact absurd ⟨r, hres⟩ hnot
+
 end ColorsConf
